@@ -433,3 +433,73 @@ def r7(rr, repo):
 def r8(rr, repo):
     from .c07 import r1 as c07r1
     c07r1(rr, repo)
+
+
+@rule('C04.R9', "the driver of send(): stale requests are drained before the first attempt, an id below the next acceptable one is refused (an equal one is not), send() returns a state only after an attempt "
+                "succeeded or the frame was abandoned because a consumer asked for a newer id, it returns None only when the time ran out, and between two attempts it waits for a request")
+def r9(rr, repo):
+    za = anchors(repo)
+    ev = za.ev(unroll_while=2)
+    ev.scope_node = za.S_send
+    ps = ev.run(za.S_send.body)
+    rr.paths += len(ps)
+    POLL, MAYBE = f'<def {za.S_poll.name}>', f'<def {za.S_maybe.name}>'
+    params = q.func_params(za.S_send)    # self, topicmsgs, state, timeout, push
+    P_state, P_timeout = params[2], params[3]
+    n_ret = n_none = n_old = 0
+    for p in ps:
+        calls = [e for e in p.events if e.kind == 'call' and e.term in (POLL, MAYBE)]
+        o = p.outcome
+        if o is None:
+            rr.violated('send() can fall off its end without telling the caller whether the frame went out', za.mod, za.S_send, witness=p.pc_text()[-160:], key='driver-falls-off')
+            continue
+        if o[0] != 'return':
+            continue
+        # entry: refusal of used-up ids
+        rel = [v for k, v in p.pc if k in (f'ord({P_state}.msg_id, self.min_send_id)', f'ord(self.min_send_id, {P_state}.msg_id)')]
+        relk = [k for k, v in p.pc if k in (f'ord({P_state}.msg_id, self.min_send_id)', f'ord(self.min_send_id, {P_state}.msg_id)')]
+        if rel:
+            below = rel[0] == ('<' if relk[0].startswith(f'ord({P_state}') else '>')
+            if below:
+                n_old += 1
+                rr.ob('an id below the next acceptable one is refused at once: no request is read, nothing is published, the caller is told the next acceptable id', not calls and o[1] is not None and 'self.min_send_id' in U(o[1]),
+                      za.mod, za.S_send, witness=p.pc_text()[:120], key='driver-refuse-old')
+                continue
+            rr.ob('an id equal to or above the next acceptable one is not refused', bool(calls), za.mod, za.S_send, witness=p.pc_text()[:160], key=f'driver-accept|{rel[0]}')
+        elif p.facts.get(f'isnone({P_state})') is False:
+            rr.violated('send() with a caller-supplied id does not compare it with the next acceptable id (a used-up id would be published again)', za.mod, za.S_send, witness=p.pc_text()[:120], key='driver-no-id-test')
+            continue
+        # once poll_recv reported "abandon" (None: a consumer asked for a newer id) nothing more is attempted for this frame
+        ab = [i for i, (k, v) in enumerate(p.pc) if k.startswith(f'isnone({POLL}(') and v is True]
+        if ab:
+            later = [e for e in calls if e.pc_len > ab[0] + 1]
+            rr.ob('after poll_recv abandoned the frame no further attempt or wait is made for it', not later, za.mod, later[0].node if later else za.S_send, witness=p.pc_text()[-160:], key='driver-abandon-stops')
+        isnone = o[1] is None or (isinstance(o[1], ast.Constant) and o[1].value is None)
+        # the drain: the first call is poll_recv(0), repeated while it reports a request
+        first = calls[0] if calls else None
+        rr.ob('requests already queued are read (poll_recv(0)) before the first attempt to send', first is not None and first.term == POLL and first.args == ('0',), za.mod, first.node if first else za.S_send,
+              witness=str([e.term + str(e.args) for e in calls[:3]]), key='driver-drain-first')
+        if isnone:
+            n_none += 1
+            tm = p.facts.get(f'isnone({P_timeout})')
+            att = [e for e in calls if e.term == MAYBE]
+            rr.ob('send() gives up (None) only with a timeout, after at least one attempt, and the last attempt had failed', tm is False and bool(att) and _last_truth(p, MAYBE) is False, za.mod, za.S_send,
+                  witness=p.pc_text()[-200:], key='driver-none-only-timeout')
+            continue
+        n_ret += 1
+        att = [e for e in calls if e.term == MAYBE]
+        aband = any(k.startswith(f'isnone({POLL}(') and v is True for k, v in p.pc)
+        ok = aband or (bool(att) and _last_truth(p, MAYBE) is True)
+        rr.ob('send() reports a state only after an attempt succeeded or after poll_recv abandoned the frame (a consumer asked for a newer id)', ok, za.mod, za.S_send, witness=p.pc_text()[-200:], key='driver-state-after-success')
+        # between two attempts a request is waited for
+        for a, b in zip(att, att[1:]):
+            between = [e for e in calls[calls.index(a) + 1:calls.index(b)] if e.term == POLL]
+            rr.ob('between two attempts the publisher waits for a request (poll_recv)', bool(between), za.mod, b.node, key='driver-wait-between')
+    rr.floor('state-returning driver paths', n_ret, 6, za.mod, za.S_send)
+    rr.floor('give-up driver paths', n_none, 2, za.mod, za.S_send)
+    rr.floor('refused-id driver paths', n_old, 1, za.mod, za.S_send)
+
+
+def _last_truth(p, term):
+    v = [val for k, val in p.pc if k == f'truthy({term}())']
+    return v[-1] if v else None
